@@ -339,6 +339,9 @@ def _read_partial_sparsemap(fits, nfine_per_cov, wmult, cov_index_map_temp,
             sparse_map_temp[(i + 1)*nfine_per_cov*wmult:
                             (i + 2)*nfine_per_cov*wmult] = fits.read_ext_data('SPARSE', row_range=row_range)
 
+        # The blocks were stored for the covered pixels only, in this order.
+        pixels = cov_pix_temp[sub]
+
     if wide_mask_maxbits is not None:
         sparse_map_temp = sparse_map_temp.reshape((sparse_map_temp.size // wmult,
                                                    wmult)).astype(WIDE_MASK)
